@@ -62,6 +62,10 @@ impl ModelState {
 pub struct Model {
     /// states[k]: after k open/change notifications
     pub states: Vec<ModelState>,
+    /// racy[k]: the disk changed between the moment notification k was sent and the next
+    /// quiescent point, so which on-disk text the server saw while processing it depends on
+    /// the schedule; messages belonging to such a state are not judged
+    pub racy: Vec<bool>,
     /// for op i: number of notifications sent before it
     pub notifs_before_op: Vec<usize>,
     pub final_disk: BTreeMap<String, FileState>,
@@ -93,7 +97,25 @@ pub fn model_of(scenario: &Scenario) -> Model {
             _ => {}
         }
     }
-    Model { states, notifs_before_op, final_disk: disk }
+    let mut racy = vec![false; states.len()];
+    let mut pending: Vec<usize> = Vec::new(); // states whose window is still open
+    let mut k = 0;
+    for op in &scenario.ops {
+        match op {
+            Op::Open { .. } | Op::Change { .. } => {
+                k += 1;
+                pending.push(k);
+            }
+            Op::Sync => pending.clear(),
+            o if o.is_disk() => {
+                for s in &pending {
+                    racy[*s] = true;
+                }
+            }
+            _ => {}
+        }
+    }
+    Model { states, racy, notifs_before_op, final_disk: disk }
 }
 
 fn responses(res: &ExecResult) -> BTreeMap<i64, Vec<&Value>> {
@@ -240,6 +262,14 @@ pub fn check_messages(prop: &str, scenario: &Scenario, model: &Model, res: &Exec
         let Op::Request { kind, path, offset } = &scenario.ops[*i] else { continue };
         let Some(r) = resp.get(id).and_then(|r| r.first()) else { continue };
         let state = model.notifs_before_op[*i];
+        if !model.states[state].open.contains_key(path) {
+            // not a document the editor has open: not a valid request
+            continue;
+        }
+        if model.racy[state] {
+            stats.racy_skipped += 1;
+            continue;
+        }
         let Some(host) = cache.host(state) else { continue };
         if !host.workspace().contains(path) {
             // a document outside the current root's workspace: nothing is specified about it
@@ -273,6 +303,10 @@ pub fn check_messages(prop: &str, scenario: &Scenario, model: &Model, res: &Exec
             continue;
         };
         let state = ver as usize + 1;
+        if model.racy.get(state).copied().unwrap_or(false) {
+            stats.racy_skipped += 1;
+            continue;
+        }
         let Some(host) = cache.host(state) else { continue };
         let exp_all = host.diagnostics(ranges);
         let got = project_publish(diags, ranges);
@@ -312,6 +346,7 @@ fn cross_file(expected: &Option<Vec<String>>, path: &str) -> bool {
 pub struct MsgStats {
     pub responses_checked: u64,
     pub outside_workspace_skipped: u64,
+    pub racy_skipped: u64,
     pub nonempty_responses: u64,
     pub cross_file_locations: u64,
     pub publishes_checked: u64,
